@@ -10,7 +10,9 @@
  *   N <id> <entry> <s|r> <status|-> <aes|-> <sha|-> <stubret> <arg>...
  *       arg: n (NULL) | g (pointer into a PROT_NONE region) | v (valid 64 KiB buffer, pattern
  *            filled) | s (valid buffer holding an initialised rolling-hash state) |
- *            b:<hex> (valid buffer starting with these bytes) | <hex> scalar
+ *            b:<hex> (valid buffer starting with these bytes) |
+ *            e:<hex> (exactly these bytes, ending flush against a PROT_NONE page: reading one
+ *            byte past them faults) | <hex> scalar
  *       status: value stored with asm_set_self_tests_status before the call (FIPS library)
  *       aes/sha: what the interposed _aes_self_tests/_sha_self_tests return (-: run the real ones)
  *     -> <id> ret=<hex> fault=<0|1> calls=<symid>(<hex>,...);... ptrs=<hex>,... chg=<bits> status=<after>
@@ -226,7 +228,15 @@ main(void)
                         const char *t = tok[8 + i];
                         if (!strcmp(t, "n")) a[i] = 0;
                         else if (!strcmp(t, "g")) a[i] = (long) (gregion + 4096 * (2 + 4 * i) + 64);
-                        else if (!strcmp(t, "v") || !strcmp(t, "s") || (t[0] == 'b' && t[1] == ':')) {
+                        else if (t[0] == 'e' && t[1] == ':') {
+                                size_t n = strlen(t + 2) / 2;
+                                if (n > VSZ) n = VSZ;
+                                memset(vbuf[i], 0xA5, VSZ);
+                                unhex(t + 2, vbuf[i] + VSZ - n, n);
+                                memcpy(vref[i], vbuf[i], VSZ);
+                                a[i] = (long) (vbuf[i] + VSZ - n);
+                                isv[i] = 1;
+                        } else if (!strcmp(t, "v") || !strcmp(t, "s") || (t[0] == 'b' && t[1] == ':')) {
                                 memset(vbuf[i], 0xA5, VSZ);
                                 if (t[0] == 'b') unhex(t + 2, vbuf[i], VSZ);
                                 if (t[0] == 's') {
